@@ -5,6 +5,7 @@ import (
 	"crypto/sha256"
 	"fmt"
 	"strings"
+	"sync"
 
 	square "github.com/celestiaorg/go-square/v2"
 	"github.com/celestiaorg/go-square/v2/inclusion"
@@ -138,7 +139,117 @@ func (c *Ctx) commitCase(sc sqCase) {
 	}
 }
 
+// refSubtreeRoots computes the subtree roots of a blob independently of inclusion.GenerateSubtreeRoots: the
+// blob's shares cut into the mountain range of the reference width, each chunk hashed by a fresh nmt tree
+func refSubtreeRoots(b *share.Blob, thr int) ([][]byte, error) {
+	sh, err := b.ToShares()
+	if err != nil {
+		return nil, err
+	}
+	n := uint64(len(sh))
+	w := refLeastPow2Ge(refCeilDiv(n, uint64(thr)))
+	if ms := refMinSide(n); ms < w {
+		w = ms
+	}
+	var roots [][]byte
+	pos := uint64(0)
+	for pos < n {
+		size := w
+		for size > n-pos {
+			size /= 2
+		}
+		tree := nmt.New(sha256.New(), nmt.NamespaceIDSize(share.NamespaceSize), nmt.IgnoreMaxNamespace(true))
+		for _, s := range sh[pos : pos+size] {
+			raw := s.ToBytes()
+			leaf := append(append([]byte(nil), b.Namespace().Bytes()...), raw...)
+			if err := tree.Push(leaf); err != nil {
+				return nil, err
+			}
+		}
+		r, err := tree.Root()
+		if err != nil {
+			return nil, err
+		}
+		roots = append(roots, r)
+		pos += size
+	}
+	return roots, nil
+}
+
+// commitBatchesAndConcurrency: the batch entry point agrees with the single one position by position; large
+// blobs (>= 1024 shares) agree with the independent reference; commitments computed concurrently on
+// different blobs agree with the sequential ones
+func (c *Ctx) commitBatchesAndConcurrency() {
+	ns := c.userNamespaces(3)
+	for rep := 0; rep < c.n(6, 60); rep++ {
+		c.oracle()
+		k := c.rng.Range(4, 10)
+		blobs := make([]*share.Blob, k)
+		for j := range blobs {
+			n := c.sparseLen(6)
+			if j == 0 {
+				n = c.rng.Range(60000, 200000) // the first one much larger than the rest
+			}
+			spec := c.randBlob(ns[j%3], n, j%3 == 1)
+			blobs[j], _ = spec.blob()
+		}
+		thr := c.rng.Pick([]int{1, 2, 64})
+		single := make([][]byte, k)
+		for j, b := range blobs {
+			single[j], _ = inclusion.CreateCommitment(b, simpleMerkle, thr)
+		}
+		batch, err := inclusion.CreateCommitments(blobs, simpleMerkle, thr)
+		okB := err == nil && len(batch) == k
+		for j := 0; okB && j < k; j++ {
+			okB = bytes.Equal(batch[j], single[j])
+		}
+		if !okB {
+			c.violate("C05", "", fmt.Sprintf("CreateCommitments of %d blobs does not return, position by position, what CreateCommitment returns for each blob", k), "", nil)
+		}
+		// concurrently, each on its own blob
+		conc := make([][]byte, k)
+		var wg sync.WaitGroup
+		for j := range blobs {
+			wg.Add(1)
+			go func(j int) {
+				defer wg.Done()
+				for r := 0; r < 3; r++ {
+					conc[j], _ = inclusion.CreateCommitment(blobs[j], simpleMerkle, thr)
+				}
+			}(j)
+		}
+		wg.Wait()
+		for j := range blobs {
+			if !bytes.Equal(conc[j], single[j]) {
+				c.violate("C05", "", "a commitment computed while other blobs were being committed concurrently differs from the one computed alone", "", nil)
+				break
+			}
+		}
+	}
+	// large blobs against the independent reference
+	for _, n := range []int{478 + 482*1023, 478 + 482*1100 - 7, 1 << 20} {
+		c.oracle()
+		spec := c.randBlob(ns[0], n, n%2 == 1)
+		b, _ := spec.blob()
+		for _, thr := range []int{64, 1} {
+			got, err := inclusion.GenerateSubtreeRoots(b, thr)
+			want, rerr := refSubtreeRoots(b, thr)
+			if err != nil || rerr != nil || digList(got) != digList(want) {
+				c.violate("C05", "", fmt.Sprintf("the subtree roots of a %d-byte blob at threshold %d differ from the roots computed chunk by chunk with the nmt library", n, thr), "", nil)
+			}
+			com, _ := inclusion.CreateCommitment(b, simpleMerkle, thr)
+			if !bytes.Equal(com, simpleMerkle(want)) {
+				c.violate("C05", "", fmt.Sprintf("the commitment of a %d-byte blob at threshold %d is not the Merkle root of its subtree roots", n, thr), "", nil)
+			}
+		}
+		if !c.thorough {
+			break
+		}
+	}
+}
+
 func streamCommit(c *Ctx) {
+	c.commitBatchesAndConcurrency()
 	nc := c.n(250, 5000)
 	maxes := []int{2, 4, 4, 8, 8, 16}
 	if c.thorough {
